@@ -1269,3 +1269,51 @@ Proof.
 Qed.
 
 End Term.
+
+(* ------------------------------------------------------------------------------------------ *)
+(* _invalidate_cache (rrule.py 113-122; every rruleset mutator calls it): new empty cache list, flag
+   cleared, a fresh generator, the lock released if held, _len = None.  Mutators are NOT operations of the
+   transition system; this section states where the boundary is.
+     invalidate_without_live_iterators : if no operation is in flight (every thread is still at its entry
+        point), the invalidated state satisfies the invariant for the NEW sequence seq': the theorems of
+        this file apply again from there.
+     invalidate_live_iterator_refuted : with an iterator in its tail loop the next step raises TypeError
+        (`i < self._len` with _len = None) -- one of the two faces of the open finding F-C10-stale (the other
+        one, the stale iterator declaring the NEW cache complete, needs the identity of the old list and is
+        modelled in coq/rset/RSetHist.v). *)
+
+Definition invalidate (st : state) : state := St (Sh [] false true 0 false None None) (thr st).
+
+Definition at_entry (th : thread) : bool :=
+  match t_pc th with PQTest | PLenTest | PIterTest => true | _ => false end.
+
+Theorem invalidate_without_live_iterators : forall seq seq' st,
+  Inv seq st -> forallb at_entry (thr st) = true -> Inv seq' (invalidate st).
+Proof.
+  intros seq seq' st (HS & HL & HT) Hq. rewrite forallb_forall in Hq.
+  assert (Hent : forall t th, nth_error (thr st) t = Some th -> at_entry th = true).
+  { intros t th H. apply Hq. apply (nth_error_In _ _ H). }
+  unfold Inv, invalidate. cbn [sh thr]. split; [|split].
+  - unfold shared_inv. cbn [cache complete sgen gpos gdone lock lenp]. repeat split; try discriminate; try lia.
+  - split; cbn [sh thr lock].
+    + intros t th H Hc. specialize (Hent _ _ H). unfold at_entry in Hent.
+      destruct (t_pc th); discriminate.
+    + intros t H. discriminate.
+  - intros t th H. specialize (Hent _ _ H). destruct (HT _ _ H) as [_ Hpc].
+    split; unfold at_entry in Hent; destruct (t_pc th) eqn:E; try discriminate.
+    + destruct Hpc as [Ho _]. rewrite Ho. reflexivity.
+    + destruct Hpc as [[Ho _] _]. rewrite Ho. reflexivity.
+    + destruct Hpc as [Ho _]. rewrite Ho. reflexivity.
+    + exact Hpc.
+    + exact Hpc.
+    + exact Hpc.
+Qed.
+
+(* thread 0 lists a 3-element rule up to its tail loop (26 of its own steps: the fill that ends the generator, then `while i < self._len`), then the set is mutated *)
+Definition iv_state : state := invalidate (exec [1;2;3] true false (repeat 0%nat 26) (init [OList])).
+
+Lemma invalidate_live_iterator_refuted :
+  (exists th, nth_error (thr (exec [1;2;3] true false (repeat 0%nat 26) (init [OList]))) 0 = Some th /\ t_pc th = PTWhile) /\
+  (exists th', nth_error (thr (exec [1;2;3] true false (repeat 0%nat 1) iv_state)) 0 = Some th' /\
+               t_res th' = Some (Raise ETypeError)).
+Proof. split; eexists; (split; [vm_compute; reflexivity | reflexivity]). Qed.
